@@ -1924,3 +1924,48 @@ def gen_occupancy():
             'sites of a label), atom_locations (sum over the sites of a label / diffusing atoms), n_floating, _calculate_transitions_matrix and both matrix() methods; '
             'count over the flattened table = Model.C05.occ_count; the per-label sums add up to the visited (frame, atom) entries and the per-label site counts to '
             'the number of sites (gen_label_total, gen_label_sites_total)', ok, 'ok' if ok else log[-800:])
+
+
+# ---------------------------------------------------------------- unit: optimal_percolating_path (C10)
+def percolate_unit():
+    tree = _parse('path.py')
+    f = _find_func(tree, None, 'optimal_percolating_path')
+    st = _stmts(f)
+    src = [ast.unparse(s) for s in st]
+    want = ["percolate_xyz = np.array([dim in percolate for dim in 'xyz'])", "if not percolate_xyz.any():\n    raise ValueError('percolation is not defined')",
+            'F_data_periodic = np.tile(F.data, tuple(1 + percolate_xyz))', 'F_graph = free_energy_graph(F_data_periodic, max_energy_threshold=10000000.0)',
+            'image = F.dims * percolate_xyz', "best_cost = float('inf')", 'best_path = None', None, 'if best_path:\n    best_path.dims = F.dims', 'return best_path']
+    if len(src) != len(want) or any(w is not None and w != s for w, s in zip(want, src)):
+        k = next((i for i, (w, s) in enumerate(zip(want, src)) if w is not None and w != s), len(src))
+        raise Unsupported('optimal_percolating_path statement %d: %s' % (k, src[k][:140] if k < len(src) else '<missing>'))
+    loop = st[7]
+    if not (isinstance(loop, ast.For) and ast.unparse(loop.target) == 'start_point' and ast.unparse(loop.iter) == 'peaks' and not loop.orelse and len(loop.body) == 4):
+        raise Unsupported('optimal_percolating_path: loop over the peaks')
+    b = [ast.unparse(s) for s in loop.body]
+    if b[0] != 'stop_point = start_point + image' or b[2] != 'cost = path.total_energy' \
+            or b[1] != 'try:\n    path = optimal_path(F_graph, start=start_point, stop=stop_point)\nexcept nx.NetworkXNoPath:\n    continue' \
+            or b[3] != 'if cost < best_cost:\n    best_cost = cost\n    best_path = path':
+        raise Unsupported('optimal_percolating_path loop body: ' + ' | '.join(b)[:400])
+    # the default criterion of optimal_path is what the search uses: no method argument is passed, so its default must be the additive one
+    op = _find_func(tree, None, 'optimal_path')
+    dflt = {a.arg: ast.unparse(d) for a, d in zip(op.args.kwonlyargs, op.args.kw_defaults) if d is not None}
+    pos_d = {a.arg: ast.unparse(d) for a, d in zip(op.args.args[len(op.args.args) - len(op.args.defaults):], op.args.defaults)}
+    m = {**pos_d, **dflt}.get('method')
+    if m != "'dijkstra'":
+        raise Unsupported('optimal_path: default method is %s' % m)
+
+
+def gen_percolate():
+    os.makedirs(GEN, exist_ok=True)
+    try:
+        percolate_unit()
+    except Unsupported as e:
+        return ('percolate', False, f'translator: unsupported {e}')
+    src = '(* GENERATED (static text harness/percolate_proof.v.txt, emitted only when the statements of gemdat.path.optimal_percolating_path are the ones it\n' \
+          '   transcribes: tiling by 1 + percolate_xyz, image = dims * percolate_xyz, skip on NetworkXNoPath, strict improvement) -- do not edit *)\n' \
+          + open(os.path.join(_V, 'harness', 'percolate_proof.v.txt')).read()
+    open(os.path.join(GEN, 'Percolate.v'), 'w').write(src)
+    ok, log = compile_gen('Percolate.v')
+    return ('percolate: statements of optimal_percolating_path (axes from the letters, rejection of no axis, tiling, graph with the default threshold, image of the peak, '
+            'loop with skip on no path and strict improvement, dims restored); tiling and image = Model.C10.tile_dims / perc_stop; the selection returns a cost that is '
+            'attained and minimal over the peaks that have a path, and nothing iff none has (gen_best_minimal, gen_best_none)', ok, 'ok' if ok else log[-800:])
